@@ -39,7 +39,7 @@ CHECKS = {
    note="workspace = key set of diagnostics(); text of a file = what the harness' FileSystem served",
    technique="property-based testing: validity predicate over all query results"),
  "C07": dict(cat="exploration", design="§5 C07",
-   text="Differential oracle after every step of generated edit histories (1..12 operations over a 4-file workspace, 24 text variants per file covering every include subset, renames, moved includes, syntax/type errors, missing includes; server-style and API-style edits, root switches): the long-lived host's full query dump must equal a fresh host's. All ordered pairs of a first operation with a second are enumerated, longer histories are random; also histories over generated (SEM) programs with seven kinds of text variants, disk-only changes of included files, and didOpen/didChange/didClose histories through the real server - with unopened files rewritten on disk, also to same-length texts under an unchanged modification time - compared with a fresh analysis of disk overlaid by the open buffers.",
+   text="Differential oracle after every step of generated edit histories (1..12 operations over a 4-file workspace, 24 text variants per file covering every include subset, renames, moved includes, syntax/type errors, missing includes; server-style and API-style edits, root switches): the long-lived host's full query dump must equal a fresh host's. All ordered pairs of a first operation with a second are enumerated, longer histories are random; also histories over generated (SEM) programs with seven kinds of text variants, disk-only changes of included files, and didOpen/didChange/didClose histories through the real server - with unopened files rewritten on disk, also to same-length texts under an unchanged modification time, and with a file that some variants include in vain appearing, disappearing, being opened unsaved and closed - compared with a fresh analysis of disk overlaid by the open buffers.",
    note="every edit is followed by set_root_file; hash-ordered result lists are compared sorted; FileIds are normalised to paths",
    technique="stateful property-based testing: history generation with a from-scratch differential oracle"),
  "C16": dict(cat="exploration", design="§5 C16",
@@ -51,7 +51,7 @@ CHECKS = {
    note="eight vocabulary mismatches are pinned by a snapshot test and listed as known findings (exact spelling signatures)",
    technique="exhaustive enumeration of vocabularies + property-based testing of class completion"),
  "C05": dict(cat="exploration", design="§5 C05",
-   text="Expected use->declaration map known by construction: a scope-tracking generator (SEM) emits well-scoped multi-file programs covering every declaration kind and the use positions the indexer visits, with shadowing (same-kind and cross-kind: a field or template argument named like an outer variable), optional syntax present/absent and use-after-scope probes; goto_definition is checked at three offsets of every identifier, references as exact sets, probes must not resolve and must be diagnosed. 25000 programs per quick run.",
+   text="Expected use->declaration map known by construction: a scope-tracking generator (SEM) emits well-scoped multi-file programs covering every declaration kind and the use positions the indexer visits, with shadowing (same-kind and cross-kind: a field or template argument named like an outer variable), optional syntax present/absent (braces of if/let bodies included), forward-declared classes, inherited fields declared again, and use-after-scope probes; goto_definition is checked at three offsets of every identifier, references as exact sets, probes must not resolve and must be diagnosed. 25000 programs per quick run.",
    note="the generator's scoping rules were audited against llvm-tblgen-14; uses of a field after a let override may resolve to the declaration or an override identifier; reference sets of overridden fields are not asserted",
    technique="property-based testing with a by-construction oracle (scope-tracking program generator)"),
  "C13": dict(cat="fault_enumeration", design="§5 C13",
@@ -75,11 +75,11 @@ CHECKS = {
    note="isolates server.rs/to_proto.rs/from_proto.rs: a wrong range computed by the ide layer appears on both sides",
    technique="property-based testing: differential between the server's JSON and an ide-level oracle through a reference position mapper"),
  "C11": dict(cat="exploration", design="§5 C11",
-   text="Histories of didOpen/didChange (all first-step x second-step pairs over 24 text variants, each variant in 3 line layouts of the same bytes, re-layout pairs, random histories up to 8 steps, back-to-back bursts) observed through the publishDiagnostics stream in lock-step; after every step the last publication per URI must equal a fresh analysis of the current state (empty for files outside the workspace) and versions must not decrease.",
+   text="Histories of didOpen/didChange (all first-step x second-step pairs over 24 text variants, each variant in 3 line layouts of the same bytes, re-layout pairs, random histories up to 8 steps, back-to-back bursts, histories in which a file that was included in vain comes into being) observed through the publishDiagnostics stream in lock-step; after every step the last publication per URI must equal a fresh analysis of the current state (empty for files outside the workspace) and versions must not decrease.",
    note="buffer = disk in this check (C12 covers the difference); idle = all spawned tasks ended + barrier request",
    technique="stateful property-based testing against a from-scratch oracle"),
  "C12": dict(cat="exploration", design="§5 C12",
-   text="Exhaustive enumeration of all sessions of up to 4 (thorough 5) open/change/close/save events and workspace-leaving events (an unrelated third document becomes root; the root drops its include), each with the included document on disk, never saved, and including the root back (include cycle through every edited document), and - up to 3 (thorough 4) events - in a workspace directory reached through a symbolic link, over a root and an included document whose disk and buffer texts differ observably, compared after every step with a reference session model (disk overlaid by open buffers, root = last touched).",
+   text="Exhaustive enumeration of all sessions of up to 4 (thorough 5) open/change/close/save events and workspace-leaving events (an unrelated third document becomes root; the root drops its include), each with the included document on disk, never saved, and including the root back (include cycle through every edited document), and - up to 3 (thorough 4) events - in a workspace directory reached through a symbolic link, and while another program rewrites both files on disk after every analysed step (buffer variant 0 then being the text on disk: a document opened unmodified), over a root and an included document whose disk and buffer texts differ observably, compared after every step with a reference session model (disk overlaid by open buffers, root = last touched).",
    note="a close triggers no analysis; its effect (disk text is the truth again) is checked at the next analysed step",
    technique="exhaustive small-scope enumeration of sessions against a reference model"),
  "C04": dict(cat="exploration", design="§5 C04",
